@@ -23,7 +23,7 @@ CLAIMS = {
             "incl. worker pools, zoomify, scool, chains of them, several collections per file) and on every process-kill "
             "snapshot where the destination is recognised, every structural invariant of the schema is re-derived from the "
             "raw HDF5 datasets by independent code; the run-length indexer's block size is a per-run knob (1..64 rows).",
-            "trusts h5py/libhdf5; the >1e6-pixel end-to-end crossing of the real block boundary runs in the thorough tier only",
+            "trusts h5py/libhdf5; one >1e6-pixel end-to-end creation crosses the real 1e6-row block boundary in both tiers (a second size in the thorough tier)",
             SIM + "invariant checked after every event of seeded histories and on crash snapshots"),
     "C06": ("exploration", "4 (C06)",
             "Seeded record multisets partitioned into chunks (empty, repeating pixels, unsorted with ensure_sorted), "
@@ -50,7 +50,8 @@ CLAIMS = {
             "zoomify_cooler / `cooler zoomify` with one or two consistent bases, arbitrary resolution sets (any order, "
             "with/without bases, non-derivable members), 1-4 simulated workers reading and writing the same file under the "
             "seeded scheduler: listing, each level equal to direct coarsening of a base, multires recognition, refusal of "
-            "non-derivable sets, no flock conflict, no deadlock.",
+            "non-derivable sets, no flock conflict, no deadlock; one list object of resolutions shared by two calls; the legacy "
+            "layout (`legacy_zoomify`, `zoomify --legacy`): every integer-labelled level equals the base coarsened by 2**d.",
             "two bases are generated as coarsenings of one ancestor (consistent data), as real use supplies them",
             SIM + "seeded schedules over real worker code + reference model"),
     "C11": ("exploration", "4 (C11)",
@@ -58,12 +59,13 @@ CLAIMS = {
             "imap_unordered x 2-4 workers x scheduler policies (reverse, rotate, starve...) x use_lock: NaN mask identical, "
             "weights/scale/var within 1e-9 of the unchunked sequential run, same sweep count (knife-edge relaxation only at "
             "var~tol), a repeat with the same schedule bitwise identical, visit-once through the real split(), and agreement "
-            "with a dense numpy implementation of the documented procedure.",
+            "with a dense numpy implementation of the documented procedure; thread pools and stdlib-pickle process pools; "
+            "the CLI with a blacklist BED file; the path rewritten between balancing runs of one process.",
             "the dense reference is this repository's reading of the documented procedure; one known finding (ignore_diags=0)",
             SIM + "seeded completion orders over real pipeline code vs sequential reference"),
     "C13": ("fault_enumeration", "4 (C13)",
             "Per workload (populated multi-collection file + one producer: ordered/unordered create, merge, coarsen with or "
-            "without workers, scool) every F1 placement (4 kinds x chunk x first/mid/last), every F2 index, every F4 open "
+            "without workers, scool) every F1 placement (7 kinds x chunk x first/mid/last), every F2 index, every F4 open "
             "index and every F6 task index is injected, F3 interrupts at stratified line events (all of them in the "
             "thorough tier for small workloads), and the file is examined as a restarted process would see it after every "
             "close (F5): destination not recognised unless complete, neighbours read back unchanged, then the operation is "
